@@ -491,8 +491,12 @@ class History:
     def op_copies(self):
         sm, rng = self.sm, self.rng
         o = self.pick(sm.VecBase, sm.AngleBase, sm.MatrixBase)
-        how = rng.choice(('copy', 'copy.copy', 'deepcopy', 'pickle', 'ctor'))
-        if how == 'copy':
+        how = rng.choice(('copy', 'copy.copy', 'deepcopy', 'pickle', 'ctor', 'from_str'))
+        if how == 'from_str' and isinstance(o, sm.MatrixBase):
+            how = 'ctor'
+        if how == 'from_str':
+            c = type(o).from_str(o)  # documented: "If the value is already a vector/Angle, a copy will be returned"
+        elif how == 'copy':
             c = o.copy()
         elif how == 'copy.copy':
             c = copy.copy(o)
